@@ -31,6 +31,7 @@ Init == l = 1 /\ bad = {} /\ phase = "none" /\ srcs = <<>> /\ bases = <<>> /\ ru
 AnyOk == (\E i \in DOMAIN srcs : srcs[i].ok) /\ (bases = <<>> \/ \E i \in DOMAIN bases : bases[i].ok)   \* a run with -base needs one of them as well
 \* arguments of a report command override the stored focus / ignore for that command only
 Eff(o, e) == [o EXCEPT !.focus = IF Len(e.af) > 0 THEN ToSetOf(e.af) ELSE @, !.ignore = IF Len(e.ai) > 0 THEN ToSetOf(e.ai) ELSE @,
+                       !.hide = IF Len(e.ah) > 0 THEN ToSetOf(e.ah) ELSE @,
                        !.si = IF e.asi > 0 THEN e.asi ELSE @, !.rel = IF e.arel = "" THEN @ ELSE e.arel = "t"]
 \* the named conjuncts of each kind of step; the state after the step
 Checks(e) ==
@@ -57,6 +58,8 @@ Failed(e) == LET p == Checks(e) IN {f \in DOMAIN p : ~p[f]}
 
 ApplyAssign(o, e) == CASE e.opt = "focus"  -> [o EXCEPT !.focus = ToSetOf(e.names)]
                        [] e.opt = "ignore" -> [o EXCEPT !.ignore = ToSetOf(e.names)]
+                       [] e.opt = "hide"   -> [o EXCEPT !.hide = ToSetOf(e.names)]
+                       [] e.opt = "show"   -> [o EXCEPT !.show = ToSetOf(e.names)]
                        [] e.opt = "si"     -> [o EXCEPT !.si = e.n]
                        [] e.opt = "rel"    -> [o EXCEPT !.rel = e.b]
                        [] OTHER -> o
